@@ -1,5 +1,416 @@
 package main
 
-func cmdCheck(args []string) int    { return 2 }
-func cmdReplay(args []string) int   { return 2 }
+import (
+	"encoding/json"
+	"flag"
+	"fmt"
+	"os"
+	"path/filepath"
+	"sort"
+	"strings"
+	"time"
+)
+
+// ---------------------------------------------------------------------------
+// check configuration (/verif/harness/checks.json)
+
+type HarnessGroup struct {
+	Sets         []string                  `json:"sets"`
+	Redirects    string                    `json:"redirects"`
+	Pkg          string                    `json:"pkg"`
+	Names        []string                  `json:"names"`
+	Quick        map[string]int            `json:"quick"`
+	Thorough     map[string]int            `json:"thorough"`
+	PerName      map[string]map[string]int `json:"per_name"` // extra params per harness (both tiers)
+	PerNameT     map[string]map[string]int `json:"per_name_thorough"`
+	MapOrderQ    int                       `json:"maporder_quick"`
+	MapOrderT    int                       `json:"maporder_thorough"`
+	MaxSteps     int                       `json:"maxsteps"`
+	MaxLoop      int                       `json:"maxloop"`
+	Require      []string                  `json:"require_reach"`
+	ThoroughOnly []string                  `json:"thorough_only"`
+	ExtraInterp  []string                  `json:"extra_interp"`
+}
+
+type CheckSpec struct {
+	Title       string         `json:"title"`
+	Explanation string         `json:"explanation"`
+	Bounds      string         `json:"bounds"`
+	BoundsT     string         `json:"bounds_thorough"`
+	Outside     []string       `json:"outside_claim"`
+	Assumptions []string       `json:"assumptions"`
+	Anchors     []string       `json:"anchors"`
+	Groups      []HarnessGroup `json:"groups"`
+}
+
+type KnownFinding struct {
+	Property string `json:"property"`
+	Harness  string `json:"harness"`
+	Key      string `json:"key"` // kind:id of the violation
+	What     string `json:"what"`
+	Status   string `json:"status"` // known | fixed
+	Commit   string `json:"commit,omitempty"`
+}
+
+type ReplayFile struct {
+	Property   string            `json:"property"`
+	Harness    string            `json:"harness"`
+	Package    string            `json:"package"`
+	Sets       []string          `json:"sets"`
+	Redirects  string            `json:"redirects"`
+	Params     map[string]int    `json:"params"`
+	Assignment map[string]uint64 `json:"assignment"`
+	Expect     struct {
+		Kind string `json:"kind"`
+		ID   string `json:"id"`
+		Msg  string `json:"msg"`
+	} `json:"expect"`
+}
+
+func violKey(v Violation) string { return v.Kind + ":" + v.ID }
+
+func cmdCheck(args []string) int {
+	fs := flag.NewFlagSet("check", flag.ExitOnError)
+	repo := fs.String("repo", "/repo", "repository root")
+	vdir := fs.String("verif", "/verif", "verif root")
+	tier := fs.String("tier", "", "quick|thorough")
+	workers := fs.Int("workers", 16, "workers")
+	noReplay := fs.Bool("noreplay", false, "skip native replay (debugging only; violations are then reported as inconclusive)")
+	only := fs.String("only", "", "run only harnesses whose name contains this")
+	verbose := fs.Bool("v", false, "verbose")
+	fs.Parse(args)
+	if fs.NArg() < 1 {
+		fmt.Fprintln(os.Stderr, "usage: gosymx check [--tier quick|thorough] <property>")
+		return 2
+	}
+	prop := fs.Arg(0)
+	if *tier == "" {
+		*tier = os.Getenv("VERIF_TIER")
+	}
+	if *tier != "thorough" {
+		*tier = "quick"
+	}
+	seed := 0
+	fmt.Sscanf(os.Getenv("VERIF_SEED"), "%d", &seed)
+	t0 := time.Now()
+	hdir := filepath.Join(*vdir, "harness")
+	var specs map[string]CheckSpec
+	data, err := os.ReadFile(filepath.Join(hdir, "checks.json"))
+	if err != nil {
+		fmt.Fprintln(os.Stderr, err)
+		return 2
+	}
+	if err := json.Unmarshal(data, &specs); err != nil {
+		fmt.Fprintln(os.Stderr, "checks.json:", err)
+		return 2
+	}
+	spec, ok := specs[prop]
+	if !ok {
+		fmt.Fprintln(os.Stderr, "no check registered for", prop)
+		return 2
+	}
+	var known []KnownFinding
+	if kd, err := os.ReadFile(filepath.Join(*vdir, "known_findings.json")); err == nil {
+		if err := json.Unmarshal(kd, &known); err != nil {
+			fmt.Fprintln(os.Stderr, "known_findings.json:", err)
+			return 2
+		}
+	}
+
+	var results []*HarnessResult
+	var inconclusive []string
+	for gi, g := range spec.Groups {
+		cfg := defaultConfig()
+		cfg.Workers = *workers
+		cfg.Verbose = *verbose
+		cfg.CrossCheck = *tier == "thorough"
+		if g.MaxSteps > 0 {
+			cfg.MaxSteps = g.MaxSteps
+		}
+		if g.MaxLoop > 0 {
+			cfg.MaxLoop = g.MaxLoop
+		}
+		cfg.MapOrder = g.MapOrderQ
+		if *tier == "thorough" {
+			cfg.MapOrder = g.MapOrderT
+		}
+		ov, _, err := buildOverlay(*repo, hdir, g.Sets, "sym")
+		if err != nil {
+			fmt.Fprintln(os.Stderr, "overlay:", err)
+			return 2
+		}
+		eng, err := loadEngine(LoadSpec{RepoDir: *repo, Patterns: []string{g.Pkg}, Overlay: ov}, cfg)
+		if err != nil {
+			// a tree that no longer compiles with the harness: inconclusive, never a pass
+			fmt.Printf("INCONCLUSIVE property=%s group=%d: cannot load %s with harness overlay: %v\n", prop, gi, g.Pkg, err)
+			inconclusive = append(inconclusive, "load failure: "+err.Error())
+			continue
+		}
+		for _, x := range g.ExtraInterp {
+			eng.extraInterp[x] = true
+		}
+		if g.Redirects != "" {
+			if err := eng.loadRedirects(filepath.Join(hdir, g.Redirects), g.Pkg); err != nil {
+				fmt.Printf("INCONCLUSIVE property=%s: redirects: %v\n", prop, err)
+				inconclusive = append(inconclusive, "redirects: "+err.Error())
+				continue
+			}
+		}
+		for _, name := range g.Names {
+			if *only != "" && !strings.Contains(name, *only) {
+				continue
+			}
+			skip := false
+			for _, t := range g.ThoroughOnly {
+				if t == name && *tier != "thorough" {
+					skip = true
+				}
+			}
+			if skip {
+				continue
+			}
+			params := map[string]int{}
+			src := g.Quick
+			if *tier == "thorough" {
+				src = g.Thorough
+				if src == nil {
+					src = g.Quick
+				}
+			}
+			for k, v := range src {
+				params[k] = v
+			}
+			for k, v := range g.PerName[name] {
+				params[k] = v
+			}
+			if *tier == "thorough" {
+				for k, v := range g.PerNameT[name] {
+					params[k] = v
+				}
+			}
+			eng.cfg.Params = params
+			res, err := eng.RunHarness(g.Pkg, name)
+			if err != nil {
+				fmt.Printf("INCONCLUSIVE property=%s harness=%s: %v\n", prop, name, err)
+				inconclusive = append(inconclusive, err.Error())
+				continue
+			}
+			res.groupIdx = gi
+			results = append(results, res)
+			fmt.Printf("harness %s params=%v: paths=%d (%v) assertions=%d panic-obligations=%d solver-queries=%d solver=%dms wall=%.1fs violations=%d\n",
+				name, params, res.Paths, res.Ends, res.Asserts, res.Obligations, res.Queries, res.SolverMs, res.WallS, len(res.Violations))
+			for _, m := range res.Inconclusive {
+				fmt.Printf("INCONCLUSIVE property=%s harness=%s: %s\n", prop, name, m)
+				inconclusive = append(inconclusive, name+": "+m)
+			}
+			// vacuity: required witnesses
+			for _, w := range g.Require {
+				if strings.HasPrefix(w, name+":") {
+					tag := w[len(name)+1:]
+					found := false
+					for _, r := range res.Reached {
+						if r == tag {
+							found = true
+						}
+					}
+					if !found {
+						msg := fmt.Sprintf("VACUOUS: witness %q not reached in %s", tag, name)
+						fmt.Printf("INCONCLUSIVE property=%s %s\n", prop, msg)
+						inconclusive = append(inconclusive, msg)
+					}
+				}
+			}
+		}
+	}
+
+	// classify violations
+	exit := 0
+	nviol := 0
+	var knownSeen []string
+	replayDir := filepath.Join(*vdir, "replays", prop)
+	for _, res := range results {
+		for _, v := range res.Violations {
+			key := violKey(v)
+			var kf *KnownFinding
+			for i := range known {
+				k := &known[i]
+				if k.Property == prop && k.Harness == res.Harness && k.Key == key && k.Status == "known" {
+					kf = k
+				}
+			}
+			g := spec.Groups[res.groupIdx]
+			rf := ReplayFile{Property: prop, Harness: res.Harness, Package: res.Package, Sets: g.Sets, Redirects: g.Redirects,
+				Params: res.Params, Assignment: v.Assignment}
+			rf.Expect.Kind, rf.Expect.ID, rf.Expect.Msg = v.Kind, v.ID, v.Msg
+			os.MkdirAll(replayDir, 0755)
+			rpath := filepath.Join(replayDir, sanitize(res.Harness+"-"+key)+".json")
+			rd, _ := json.MarshalIndent(rf, "", " ")
+			os.WriteFile(rpath, rd, 0644)
+			if kf != nil {
+				line := fmt.Sprintf("KNOWN-FINDING: property=%s %s [harness=%s %s]", prop, kf.What, res.Harness, key)
+				knownSeen = append(knownSeen, line)
+				fmt.Println(line)
+				continue
+			}
+			if *noReplay {
+				fmt.Printf("INCONCLUSIVE property=%s harness=%s: counterexample %s not replayed (--noreplay): %s %v\n", prop, res.Harness, key, v.Msg, v.Assignment)
+				inconclusive = append(inconclusive, "not replayed: "+key)
+				continue
+			}
+			ok, out := runReplay(*repo, hdir, rf)
+			if ok {
+				nviol++
+				exit = 1
+				fmt.Printf("counterexample for %s in %s: %s\n  assignment: %v\n", key, res.Harness, v.Msg, v.Assignment)
+				fmt.Printf("VIOLATION property=%s replay=%s\n", prop, rpath)
+			} else {
+				msg := fmt.Sprintf("ENGINE-MISMATCH: counterexample for %s in %s did not reproduce natively (%s)", key, res.Harness, lastLines(out, 6))
+				fmt.Printf("INCONCLUSIVE property=%s %s\n", prop, msg)
+				inconclusive = append(inconclusive, msg)
+			}
+		}
+	}
+	if exit == 0 && len(inconclusive) > 0 {
+		exit = 2
+	}
+	writeEvidence(*vdir, prop, *tier, seed, spec, results, inconclusive, knownSeen, nviol, time.Since(t0).Seconds())
+	if exit == 0 {
+		fmt.Printf("OK property=%s tier=%s: held on everything explored (%d harnesses, %.1fs)\n", prop, *tier, len(results), time.Since(t0).Seconds())
+	}
+	return exit
+}
+
+func sanitize(s string) string {
+	var sb strings.Builder
+	for _, r := range s {
+		if (r >= 'a' && r <= 'z') || (r >= 'A' && r <= 'Z') || (r >= '0' && r <= '9') || r == '-' || r == '_' || r == '.' {
+			sb.WriteRune(r)
+		} else {
+			sb.WriteByte('_')
+		}
+	}
+	return sb.String()
+}
+
+func lastLines(s string, n int) string {
+	ls := strings.Split(strings.TrimSpace(s), "\n")
+	if len(ls) > n {
+		ls = ls[len(ls)-n:]
+	}
+	return strings.Join(ls, " | ")
+}
+
+// ---------------------------------------------------------------------------
+// evidence
+
+func writeEvidence(vdir, prop, tier string, seed int, spec CheckSpec, results []*HarnessResult, inconclusive, knownSeen []string, nviol int, wall float64) {
+	paths, nontrivial, obligations, discharged, queries := 0, 0, 0, 0, 0
+	var solverMs int64
+	funcs := map[string]int{}
+	hashes := map[string]string{}
+	redirects := map[string]int{}
+	var samples []interface{}
+	var hs []interface{}
+	reached := map[string]bool{}
+	cross := 0
+	for _, r := range results {
+		paths += r.Paths
+		nontrivial += r.Nontrivial
+		obligations += r.Asserts + r.Obligations
+		queries += r.Queries
+		solverMs += r.SolverMs
+		cross += r.CrossChecked
+		for k, v := range r.Funcs {
+			funcs[k] += v
+		}
+		for k, v := range r.FuncHash {
+			hashes[k] = v
+		}
+		for k, v := range r.Redirects {
+			redirects[k] += v
+		}
+		for _, t := range r.Reached {
+			reached[r.Harness+":"+t] = true
+		}
+		for _, s := range r.Samples {
+			samples = append(samples, map[string]interface{}{"harness": r.Harness, "path": s})
+		}
+		hs = append(hs, map[string]interface{}{
+			"harness": r.Harness, "package": r.Package, "params": r.Params, "paths": r.Paths, "path_ends": r.Ends,
+			"assertions_evaluated": r.Asserts, "panic_obligations": r.Obligations, "solver_queries": r.Queries,
+			"solver_sat": r.Sat, "solver_unsat": r.Unsat, "solver_unknown": r.Unknown, "solver_ms": r.SolverMs,
+			"instructions": r.Steps, "max_symbolic_decisions_on_a_path": r.MaxDecisions, "witnesses_reached": r.Reached,
+			"violations": len(r.Violations), "wall_s": r.WallS, "crosschecked_queries": r.CrossChecked,
+		})
+	}
+	discharged = obligations - nviol - len(knownSeen)
+	if discharged < 0 {
+		discharged = 0
+	}
+	// functions of the module actually interpreted
+	var encoded []string
+	for k := range hashes {
+		encoded = append(encoded, k+" ssa#"+hashes[k])
+	}
+	sort.Strings(encoded)
+	// anchor coverage
+	anchor := map[string]string{}
+	for _, a := range spec.Anchors {
+		st := "NOT-ENCODED"
+		for k, n := range funcs {
+			if strings.HasSuffix(k, a) || strings.Contains(k, a) {
+				st = fmt.Sprintf("interpreted on %d paths", n)
+				break
+			}
+		}
+		anchor[a] = st
+	}
+	var rl []string
+	for k := range reached {
+		rl = append(rl, k)
+	}
+	sort.Strings(rl)
+	if len(samples) == 0 {
+		samples = append(samples, "no completed path with symbolic input in this run")
+	}
+	bounds := spec.Bounds
+	if tier == "thorough" && spec.BoundsT != "" {
+		bounds = spec.BoundsT
+	}
+	ev := map[string]interface{}{
+		"property_id": prop,
+		"tier":        tier,
+		"seed":        seed,
+		"level":       "other",
+		"coverage": map[string]interface{}{
+			"explanation":             "Bounded symbolic execution of the repository's own Go code (go/ssa of /repo's working tree, rebuilt on this run) with an SMT solver (z3) deciding every assertion and every panic obligation for all values of the symbolic inputs within the stated bounds. " + spec.Explanation,
+			"bounds":                  bounds,
+			"outside_claim":           spec.Outside,
+			"evaluations":             paths,
+			"distinct_nontrivial":     nontrivial,
+			"rule":                    "one evaluation = one feasible execution path of a harness (a distinct decision vector over symbolic branches); non-trivial = the path completed and depended on at least one symbolic input; on each path the assertions are decided by the solver for all remaining symbolic values at once",
+			"obligations":             obligations,
+			"discharged":              discharged,
+			"solver_queries":          queries,
+			"solver_ms":               solverMs,
+			"crosschecked_queries":    cross,
+			"harnesses":               hs,
+			"functions_encoded":       encoded,
+			"environment_stubs_used":  redirects,
+			"anchor_coverage":         anchor,
+			"witnesses_reached":       rl,
+			"samples":                 samples,
+			"inconclusive":            inconclusive,
+			"known_findings_observed": knownSeen,
+			"exhaustive":              false,
+		},
+		"assumptions": spec.Assumptions,
+		"wall_s":      wall,
+		"violations":  nviol,
+	}
+	os.MkdirAll(filepath.Join(vdir, "evidence"), 0755)
+	data, _ := json.MarshalIndent(ev, "", " ")
+	os.WriteFile(filepath.Join(vdir, "evidence", prop+".json"), data, 0644)
+}
+
 func cmdSelftest(args []string) int { return 2 }
